@@ -82,6 +82,7 @@ pub fn fail(sig: impl Into<String>, what: impl Into<String>) -> Sexp {
 
 pub mod c11;
 pub mod c08;
+pub mod c08_expr;
 pub mod c18;
 pub mod c20;
 pub mod lw;
